@@ -108,3 +108,10 @@ Example C10_read_tile_leaf_code_example :
      ++ be 3 1 ++ [x31] ++ be 2 32 ++ repeat x01 32 ++ [xff])) = Some (e, r)
     /\ l_idx e = 77%Z /\ l_pre e = true /\ r = [xff].
 Proof. do 2 eexists. split; [vm_compute; reflexivity|]. repeat split. Qed.
+
+(* ParseExtensions as translated from extensions.go (the loop over extensions is a fuelled fixpoint):
+   on every byte string it returns the model's leaf index or rejects as the model does *)
+Theorem C10_parse_extensions_code_is_model : forall s,
+  pext_result (gen_pext (rd_u 5) s) = parse_extensions s.
+Proof. exact gen_pext_is_model. Qed.
+Print Assumptions C10_parse_extensions_code_is_model.
